@@ -83,6 +83,12 @@ CHECKS["C16"] = dict(
     text="116 shapes, ~29,000 instruction instances, 6 (quick) / 40 (thorough) machine states each; outcome, pc, ap, fp and the set of newly written cells (write-once deduction of destination or operand) must agree; encoded length equals op_size. QM31 / Blake2s extension forms are size-checked only.",
     note="Trusted: cairo-vm's step as the executing machine (the property is stated against it). Pairs where the printed meaning does not determine the outcome (operand aliasing the destination, pointer x pointer arithmetic) are skipped and counted.")
 
+CHECKS["C08"] = dict(
+    level="exploration", design="DESIGN.md 3/C08",
+    technique="property-based testing with two oracles: (A) error-free diagnostics imply success of every later stage (Sierra generation, registry validation, own Sierra checker, metadata, CASM) over generated programs and front-end-accepted token mutants under random optimisation configurations; (B) metamorphic twins from an ownership-tracking program generator: one injected use-after-move / undropped value must turn an accepted program into a rejected one",
+    text="~3,800 cases per quick run: ~900 error-free sources compiled end to end (generated, corpus, ownership programs and their accepted mutants) and ~1,800 injected twins over 10 injection kinds (by-value, let, snapshot, ref, member, partial-move, in-loop moves; consumption removed; never consumed).",
+    note="Trusted: my generator's model of the move rules (monitored: a valid twin the compiler rejects is counted and bounded by the health check at 10%). The legacy non-linear gas solver is not part of the pipeline checked here (it is not an optimisation configuration and documents unsupported libfuncs).")
+
 PENDING_REASON = "check not built yet in this session (planned in DESIGN.md section 3; the property itself is amenable to the technique)"
 
 def main():
